@@ -11,6 +11,7 @@ import CprocVerif.Lemmas.PPObjFuel
 import CprocVerif.Lemmas.PPFunStep
 import CprocVerif.Lemmas.PPFunSim6
 import CprocVerif.Lemmas.PPPre8
+import CprocVerif.Lemmas.PPTerm3
 
 /-!
 # C12 — macro definition and expansion follow C11 6.10.3 on the implemented subset
@@ -579,10 +580,12 @@ example : runKeys (run 60 { raw := rawHAB, macros := tblHAB }).1 =
      num b!"1", num b!"1", ident b!"x", ident b!"B", ident b!"x", num b!"7", ident b!"z", tk .TADD, ident b!"z",
      ident b!"z"].map (fun t => (t.kind, t.lit)) := by decide +kernel
 
-/-! ## 7e. Arguments that name object-like macros: complete replacement before substitution (6.10.3.1)
+/-! ## 7e. Arguments with macro names and nested invocations: complete replacement before substitution (6.10.3.1)
 
-The class of texts grows (`TextP`): the tokens between the parentheses of an invocation may name
-object-like macros of the table (not function-like ones; no new-line, no `#`).  `expandfunc` reads
+The class of texts grows (`TextP`, `ArgsOK`): the tokens between the parentheses of an invocation may
+name object-like macros of the table and may hold complete invocations of function-like macros
+(`F(G(A), (F(1, G(2)), y))`), to any depth; the name of a function-like macro is always followed by
+its parenthesised arguments; no new-line, no `#`.  `expandfunc` reads
 the arguments through `expand`: the replacement of a macro named in an argument is pushed on the
 context stack and delivered into the argument while the nesting depth tells it apart from the
 text of the invocation; the reference isolates each argument and replaces it completely on its
@@ -591,7 +594,8 @@ macro name painted inside an argument must stay painted when the replacement lis
 
 /-- **Complete macro replacement of the arguments, then substitution, then rescanning: the token
 stream of the model is the token stream of the reference** on tables of object-like and simple
-function-like macros and texts whose invocations have arguments naming object-like macros.  If
+function-like macros and texts whose invocations have arguments with object-like macro names and
+nested invocations.  If
 the model's run completes, the reference — with `J` units of fuel or more — completes without
 diagnostic and delivers the same tokens by class and spelling (after `keyword()`). -/
 theorem function_like_args_correct_partial (ms0 : List Macro) (hTb : TblOK ms0) (n : Nat) (st : St) (g : GoodP ms0 st)
@@ -633,6 +637,12 @@ theorem function_like_args_correct_init (ms0 : List Macro) (raw : List Tok) (n :
 def rawArgs : List Tok := [ident b!"H", tk .TLPAREN none true, ident b!"A" true, tk .TCOMMA none true, tk .TLPAREN none true,
   ident b!"B" true, tk .TCOMMA none true, ident b!"y" true, tk .TRPAREN none true, tk .TRPAREN none true, ident b!"x" true,
   NL, tk .TEOF]
+-- and `H ( H ( 1 , A ) , B ) ;`: an invocation nested in an argument
+def rawNest : List Tok := [ident b!"H", tk .TLPAREN none true, ident b!"H" true, tk .TLPAREN none true, num b!"1" true,
+  tk .TCOMMA none true, ident b!"A" true, tk .TRPAREN none true, tk .TCOMMA none true, ident b!"B" true,
+  tk .TRPAREN none true, tk .TSEMICOLON none true, NL, tk .TEOF]
+example : textPb tblHAB (rawNest.length + 1) rawNest = true := by decide +kernel
+example : (run 120 { raw := rawNest, macros := tblHAB }).2 = none := by decide +kernel
 example : textPb tblHAB (rawArgs.length + 1) rawArgs = true := by decide +kernel
 example : textOKb tblHAB (rawArgs.length + 1) rawArgs = false := by decide +kernel
 example : (run 80 { raw := rawArgs, macros := tblHAB }).2 = none := by decide +kernel
@@ -640,6 +650,44 @@ example : runKeys (run 80 { raw := rawArgs, macros := tblHAB }).1 =
     [tk .TLPAREN, ident b!"B", ident b!"x", num b!"7", tk .TCOMMA, ident b!"y", tk .TRPAREN, tk .TADD,
      ident b!"A", num b!"7", ident b!"x", ident b!"A", num b!"7", ident b!"x", ident b!"x"].map (fun t => (t.kind, t.lit)) := by
   decide +kernel
+
+/-! ## 7f. Termination with function-like macros
+
+The run of the model completes on every good state over a text of the class (`TextP`): the
+context stack has a potential (`potW`: the weights `W` of the tokens it will deliver, each against
+the macros without a live frame at or below it; a replacement trades a token's weight for one unit
+less), the argument loop completes on the text of every invocation (`loopTot_of_argsOK`, by
+induction on the structure of the arguments, with the potential for the replacements inside an
+argument), and the text gets shorter.  No bound is computed: the statement is that enough fuel
+exists, and then (`fuel_monotone_run`) any larger amount gives the same run. -/
+
+/-- **Termination without a fuel hypothesis** for object-like and simple function-like macros,
+arguments with macro names and nested invocations. -/
+theorem function_like_terminates (ms0 : List Macro) (hTb : TblOK ms0) (st : St) (g : GoodP ms0 st)
+    (ht : TextP ms0 st.raw) : ∃ N, ∀ n, N ≤ n → (run n st).2 = none :=
+  run_totalP ms0 hTb st g ht
+
+/-- **Total correctness on the class**: with enough fuel on both sides the model's run completes and
+is what the reference delivers (no hypothesis that the run completes). -/
+theorem function_like_correct_total (ms0 : List Macro) (raw : List Tok) (h1 : tblOKb ms0 = true)
+    (h2 : ∀ m ∈ ms0, m.hide = false) (h3 : textPb ms0 (raw.length + 1) raw = true) :
+    ∃ N J, ∀ n K, N ≤ n → J ≤ K →
+      (run n { raw := raw, macros := ms0 }).2 = none ∧
+      (MacroRef.expandH false K (tblF ms0) ((absRawF raw).map .tok)).2.1 = none ∧
+      (MacroRef.expandH false K (tblF ms0) ((absRawF raw).map .tok)).1.map (fun t => kwKey t.tok.key)
+        = runKeys (run n { raw := raw, macros := ms0 }).1 := by
+  have hTb := tblOK_of_b h1
+  have ht := textP_of_b ms0 _ raw h3
+  have g := goodP_init ms0 raw hTb h2
+  obtain ⟨N, hN⟩ := function_like_terminates ms0 hTb { raw := raw, macros := ms0 } g ht
+  obtain ⟨J, hJ⟩ := function_like_args_correct_init ms0 raw N h1 h2 h3 (hN N (Nat.le_refl _))
+  refine ⟨N, J, fun n K hn hK => ?_⟩
+  have hrun : run n { raw := raw, macros := ms0 } = run N { raw := raw, macros := ms0 } := by
+    obtain ⟨d, hd⟩ := Nat.exists_eq_add_of_le hn
+    rw [hd]
+    exact run_mono N d _ (by rw [hN N (Nat.le_refl _)]; intro hh; cases hh)
+  rw [hrun]
+  exact ⟨hN N (Nat.le_refl _), (hJ K hK).1, (hJ K hK).2⟩
 
 /-! ## 8. Function-like macros: the full statement, and why it is false today
 
